@@ -673,6 +673,8 @@ class Interp:
             return
         if not isinstance(base, Arr):
             raise self.unsupported("subscript store on %r" % (base,), node)
+        if isinstance(v, (list, tuple)) and v and all(isinstance(r, (list, tuple, Arr)) for r in v):
+            v = self.to_arr(v, node)      # nested list literal assigned to a block
         if isinstance(sl, ast.Constant) and sl.value is Ellipsis:
             new = self.to_arr(v, node) if not isinstance(v, Arr) else v
             if new.shape != base.shape:
